@@ -1348,10 +1348,47 @@ func descFval(x fval) string {
 // copyOf: v is a fresh slice holding a complete copy of src:
 // append([]T(nil), src...), append([]T{}, src...), bytes.Clone(src),
 // slices.Clone(src), or make([]T, len(src)) filled by copy(v, src).
-func copyOf(v ssa.Value) (src ssa.Value, ok bool) {
+func copyOf(v ssa.Value) (src ssa.Value, ok bool) { return copyOfD(v, 0) }
+
+func copyOfD(v ssa.Value, depth int) (src ssa.Value, ok bool) {
 	v = ir.Strip(ir.ResolveCell(v))
 	switch x := v.(type) {
 	case *ssa.Call:
+		// a helper of the same package every return of which is a fresh copy of
+		// one and the same parameter: the call's result is a fresh copy of that argument
+		if h := ir.Callee(x.Call); h != nil && h.Blocks != nil && depth < maxHelperDepth && x.Parent() != nil && h.Pkg == x.Parent().Pkg &&
+			h.Signature.Results().Len() == 1 && len(h.Params) == len(x.Call.Args) {
+			idx := -1
+			n := 0
+			for _, r := range ir.Returns(h) {
+				if len(r.Results) != 1 {
+					return nil, false
+				}
+				rs, isCopy := copyOfD(r.Results[0], depth+1)
+				if !isCopy {
+					return nil, false
+				}
+				p, isParam := ir.Strip(ir.ResolveCell(rs)).(*ssa.Parameter)
+				if !isParam || p.Parent() != h {
+					return nil, false
+				}
+				pi := -1
+				for i, q := range h.Params {
+					if q == p {
+						pi = i
+					}
+				}
+				if pi < 0 || (idx >= 0 && idx != pi) {
+					return nil, false
+				}
+				idx = pi
+				n++
+			}
+			if n > 0 && idx >= 0 {
+				return x.Call.Args[idx], true
+			}
+			return nil, false
+		}
 		if b, isB := x.Call.Value.(*ssa.Builtin); isB && b.Name() == "append" && len(x.Call.Args) == 2 {
 			if emptySlice(x.Call.Args[0]) {
 				if _, isSlice := x.Call.Args[1].Type().Underlying().(*types.Slice); isSlice {
